@@ -4,6 +4,7 @@ import (
 	"fmt"
 	"math/rand"
 	"sort"
+	"strings"
 
 	"verif/internal/model"
 )
@@ -310,7 +311,9 @@ func (g *docGen) field(fd *model.FieldDef, depth int, keys map[string]bool) *mod
 		g.feats["alias"] = true
 	}
 	if keys[f.Key()] {
-		if g.o.DupKeys && len(fd.Args) == 0 && g.r.Intn(2) == 0 {
+		// a response key may only be repeated by the same field (anything else is an invalid document:
+		// "fields in set can merge"); the owner of a key is recorded under a reserved entry of the same map
+		if g.o.DupKeys && len(fd.Args) == 0 && keys[fmt.Sprintf("\x00own:%s=%p", f.Key(), fd)] && g.r.Intn(2) == 0 {
 			g.feats["dup-key"] = true
 			if !leaf {
 				g.feats["dup-key-composite"] = true
@@ -321,6 +324,7 @@ func (g *docGen) field(fd *model.FieldDef, depth int, keys map[string]bool) *mod
 		}
 	}
 	keys[f.Key()] = true
+	keys[fmt.Sprintf("\x00own:%s=%p", f.Key(), fd)] = true
 	if len(fd.Args) > 0 {
 		f.Args = g.args(fd)
 	}
@@ -426,7 +430,7 @@ func (g *docGen) fragment(typeName string, depth int, keys map[string]bool) mode
 		g.o.Vars = saveVars
 		var added []string
 		for k := range keys {
-			if !before[k] {
+			if !before[k] && !strings.HasPrefix(k, "\x00") {
 				added = append(added, k)
 			}
 		}
